@@ -245,12 +245,29 @@ def run(ctx):
     trues = [x for x in f.nodes if x.get("k") == "return" and core(x.child("e")).get("k") == "bool" and core(x.child("e"))["v"] is True]
     ok = len(trues) == 1 and any(p and expr_plain_atom(a) == "(cur.size() == prev.size())" for a, p in (bf.at_node(trues[0]) or frozenset()))
     r.check(ok, "isResultValid|length-compared", "", "listings can be accepted without comparing their lengths", f)
-    loops = [n for n in f.nodes if n.get("k") == "for"]
-    ok = len(loops) == 1 and any(x.get("k") == "return" and core(x.child("e")).get("v") is False for x in loops[0].child("body").walk()) and \
-        any("(*cur_it)" in expr_plain(c) and "(*prev_it)" in expr_plain(c) for c in loops[0].walk() if c.get("k") in ("call", "bin") and c.get("op") == "!=")
+    loops = [n for n in f.nodes if n.get("k") in ("for", "while")]
+    ok = len(loops) == 1 and any(x.get("k") == "return" and core(x.child("e")).get("v") is False for x in loops[0].child("body").walk())
     if ok:
-        inc = expr_str(loops[0].child("inc"))
-        ok = "cur_it" in inc and "prev_it" in inc
+        lp = loops[0]
+        cmps = [c for c in lp.walk() if c.get("k") in ("call", "bin") and c.get("op") in ("!=", "==")]
+        inc = expr_str(lp.child("inc")) if "inc" in lp else " ".join(expr_str(x) for x in lp.child("body").walk() if x.get("k") == "un" and "++" in x.get("op", ""))
+        pair_ok = False
+        for c in cmps:
+            t = expr_plain(c)
+            # paired iterators advanced together, or one index into both vectors
+            if "(*cur_it)" in t and "(*prev_it)" in t and "cur_it" in inc and "prev_it" in inc:
+                pair_ok = True
+            import re as _re
+            m1 = _re.search(r"cur\[(\w+)\]", t)
+            m2 = _re.search(r"prev\[(\w+)\]", t)
+            if m1 and m2 and m1.group(1) == m2.group(1) and m1.group(1) in inc:
+                ix = m1.group(1)
+                cnd = expr_plain(lp.child("c")).replace(" ", "")
+                ini = expr_plain(lp.child("init")).replace(" ", "") if "init" in lp else ""
+                ini = _re.sub(r"cast<[^>]*>\((\d+)\)", r"\1", ini)
+                if cnd in ("(%s<cur.size())" % ix, "(%s!=cur.size())" % ix, "(%s<prev.size())" % ix, "(%s!=prev.size())" % ix) and ini.endswith("%s=0" % ix):
+                    pair_ok = True
+        ok = pair_ok
         w = cfg.path_exists(f, cfg.entry_pos(f), lambda p, e, tp=cfg.pos_of(f, trues[0]): p == tp, avoid=lambda p, e: p == cfg.any_pos(f, loops[0].child("c")))
         ok = ok and w is None
     r.check(ok, "isResultValid|elementwise", "", "listings can be accepted without comparing every element", f)
